@@ -670,14 +670,34 @@ fn seq_op(w: &mut World, accepted: &mut u32, refused: &mut u32, drops: &mut u32)
         16 | 17 => {
             // several regions built by one call; now and then the k-th mmap of the call fails:
             // the call must fail and the regions it had already mapped must not leak
-            let n = 1 + cx().a(3) as usize;
+            let n = 1 + cx().a(4) as usize;
             let mut ranges: Vec<(GuestAddress, usize, Option<FileOffset>)> = Vec::new();
             let mut cur = 0x4000_0000u64 + 0x1_0000 * cx().a(64) as u64;
             let mut specs = Vec::new();
-            for _ in 0..n {
+            // now and then one range (not necessarily the second) conflicts with its predecessor
+            let bad_at = if n >= 2 && cx().a(4) == 0 { Some(1 + cx().a(n as u32 - 1) as usize) } else { None };
+            let mut bad_kind = "";
+            for k in 0..n {
                 let size = [1usize, 4096, 8192, 5000][cx().a(4) as usize];
                 let file = cx().a(3) == 0;
                 let fo = if file { Some(FileOffset::new(crate::gmworld::memfd(size as u64), 0)) } else { None };
+                if bad_at == Some(k) {
+                    let (pb, ps, _): (u64, usize, bool) = specs[k - 1];
+                    match cx().a(3) {
+                        0 => {
+                            cur = pb + ps as u64 - 1;
+                            bad_kind = "MemoryRegionOverlap";
+                        }
+                        1 => {
+                            cur = pb;
+                            bad_kind = "MemoryRegionOverlap";
+                        }
+                        _ => {
+                            cur = pb - 0x1000;
+                            bad_kind = "UnsortedMemoryRegions";
+                        }
+                    }
+                }
                 ranges.push((GuestAddress(cur), size, fo));
                 specs.push((cur, size, file));
                 cur += size as u64 + [0u64, 1, 0x1000][cx().a(3) as usize];
@@ -688,6 +708,37 @@ fn seq_op(w: &mut World, accepted: &mut u32, refused: &mut u32, drops: &mut u32)
             }
             let live_before = cx().sys.live_count();
             let desc = format!("from_ranges_with_files({:x?}){}", specs, fail_at.map(|k| format!(" [mmap #{} of the call made to fail]", k)).unwrap_or_default());
+            if bad_at.is_some() {
+                // an invalid list: the documented error (or the injected mmap failure), nothing left mapped
+                let r = catch(|| Map::from_ranges_with_files(ranges.iter()));
+                let out = match r {
+                    OpOutcome::Ok(Ok(m)) => {
+                        viol10("C10/accepted-invalid", "multi-region construction accepted an invalid list".into(), format!("{} succeeded although range {} conflicts with its predecessor; the documented verdict is {}", desc, bad_at.unwrap(), bad_kind));
+                        if let OpOutcome::Panic(p) = catch(|| drop(m)) {
+                            cx().violate("C12", "C12/panic", "panic in drop".into(), p);
+                        }
+                        desc
+                    }
+                    OpOutcome::Ok(Err(e)) => {
+                        *refused += 1;
+                        let name = merr(&e);
+                        if name != bad_kind && !(fail_at.is_some() && name == "MmapRegion") {
+                            viol10("C10/verdict", "verdict of a multi-region construction".into(), format!("{} failed with {}; the documented verdict is {}", desc, name, bad_kind));
+                        }
+                        format!("{} -> {}", desc, name)
+                    }
+                    OpOutcome::Panic(m) => {
+                        viol10("C10/panic", "panic in from_ranges_with_files".into(), format!("{}: {}", desc, m));
+                        desc
+                    }
+                    OpOutcome::Sim(s) => format!("{:?}", s),
+                };
+                if cx().sys.live_count() != live_before {
+                    cx().violate("C12", "C12/leak", "refused multi-region construction left a mapping".into(), format!("{}: {} mapping(s) of the call are still mapped", out, cx().sys.live_count() - live_before));
+                }
+                cx().sys.fail_mmap_at = None;
+                return out;
+            }
             match catch(|| Map::from_ranges_with_files(ranges.iter())) {
                 OpOutcome::Ok(Ok(m)) => {
                     if fail_at.is_some() {
